@@ -41,6 +41,71 @@ def _c16_extra(e, run, tier):
     return hashmodel.obligations(e, run, tier)
 
 
+def _c19_extra(e, run, tier):
+    """Syntactic frame / read-set obligations for C19's non-interference clause (decided on the AST of the real source):
+    markup only flows into Document(...) and the two reference extractors, which construct nothing but reference citations."""
+    import ast
+    from pyvc import solve
+    obls = []
+
+    def ob(name, ok, why):
+        o = solve.Obligation(f"find/syntactic:{name}", [], None, {}, "C19", "post")
+        o.status = "discharged" if ok else "refuted"
+        o.solver = "ast"
+        o.smt2 = why
+        o.raw = why
+        obls.append(o)
+
+    repo = e.repo
+    gc = repo.funcs.get("find.get_citations")
+    ok = gc is not None
+    why = "find.get_citations: every load of `markup_text` is the keyword argument markup_text= of the Document(...) call"
+    if ok:
+        loads = [n for n in ast.walk(gc.node) if isinstance(n, ast.Name) and n.id == "markup_text" and isinstance(n.ctx, ast.Load)]
+        allowed = set()
+        for c in ast.walk(gc.node):
+            if isinstance(c, ast.Call) and isinstance(c.func, ast.Name) and c.func.id == "Document":
+                for k in c.keywords:
+                    if k.arg == "markup_text" and isinstance(k.value, ast.Name):
+                        allowed.add(id(k.value))
+        ok = all(id(n) in allowed for n in loads) and len(loads) >= 1
+    ob("markup_only_into_document", ok, why)
+    # attribute reads of the markup fields
+    allowed_fns = {"find.extract_reference_citations", "find.find_reference_citations_from_markup", "models.Document.__post_init__"}
+    bad = []
+    for q, fi in repo.funcs.items():
+        for n in ast.walk(fi.node):
+            if isinstance(n, ast.Attribute) and n.attr in ("markup_text", "plain_to_markup", "markup_to_plain") and q not in allowed_fns:
+                bad.append(f"{q}:{n.attr}")
+    ob("markup_fields_read_only_by_reference_extractors", not bad, "attribute reads of markup_text/plain_to_markup/markup_to_plain outside the reference extractors and Document.__post_init__: " + (", ".join(bad) or "none"))
+    # the reference extractors construct only reference citations / case-reference tokens
+    bad = []
+    for q in ("find.extract_pincited_reference_citations", "find.find_reference_citations_from_markup", "find.extract_reference_citations"):
+        fi = repo.funcs.get(q)
+        if fi is None:
+            bad.append(q + ":missing")
+            continue
+        for n in ast.walk(fi.node):
+            if isinstance(n, ast.Call) and isinstance(n.func, ast.Name) and n.func.id in repo.classes and n.func.id not in ("ReferenceCitation", "CaseReferenceToken"):
+                bad.append(f"{q}:{n.func.id}")
+            if isinstance(n, (ast.Assign, ast.AugAssign)):
+                for t in (n.targets if isinstance(n, ast.Assign) else [n.target]):
+                    for x in ast.walk(t):
+                        if isinstance(x, ast.Attribute) and isinstance(x.ctx, ast.Store):
+                            bad.append(f"{q}:store .{x.attr}")
+        run.functions[q] = {"source_sha256": fi.sha256, "paths": 0}
+    ob("reference_extractors_only_build_references", not bad, "constructors/attribute stores other than ReferenceCitation/CaseReferenceToken in the reference extractors: " + (", ".join(bad) or "none"))
+    # in get_citations the extracted references are only appended to the result list
+    ok = False
+    if gc is not None:
+        uses = [n for n in ast.walk(gc.node) if isinstance(n, ast.Name) and n.id == "references" and isinstance(n.ctx, ast.Load)]
+        ext = [c for c in ast.walk(gc.node) if isinstance(c, ast.Call) and isinstance(c.func, ast.Attribute) and c.func.attr == "extend"
+               and c.args and isinstance(c.args[0], ast.Name) and c.args[0].id == "references"]
+        ok = len(uses) == len(ext) == 1
+    ob("references_only_appended", ok, "find.get_citations uses `references` exactly once: citations.extend(references)")
+    return obls
+
+
 def _c20_extra(e, run, tier):
     """Cleaner laws: (1) the real source of each text cleaner is classified into the family collapse(p, n, r) that
     lean/Collapse.lean proves idempotent / run-free / content-preserving (AST + CPython's own regex parser);
@@ -192,6 +257,19 @@ PROPS = {
         "not_covered": ["'every spelling variation that the database maps unambiguously to an edition equals the canonical spelling' is extraction over the database "
                         "(bounded stand-in: exhaustive over reporters-db)",
                         "the re-parse / fixed-point clause of corrected_citation() (round trip through the extractor)"],
+    },
+    "C19": {
+        "pins": ["models.Document.__post_init__", "models.Document.tokenize", "models.CitationBase.__post_init__"],
+        "contracts": ["a_common", "c18_helpers", "helpers", "filter", "refs", "annotate"],
+        "functions": ["find.extract_pincited_reference_citations", "helpers.filter_citations", "annotate.SpanUpdater.__init__", "annotate.SpanUpdater.update"],
+        "extra": [_c19_extra],
+        "assumptions": ["non-interference is proved as a frame argument: (syntactic, on the AST) markup flows only into Document(...) and the reference extractors, which build nothing but "
+                        "ReferenceCitation objects and store to no existing object; (SMT) filter_citations keeps every non-reference citation and invents nothing (C03)",
+                        "markup-derived reference offsets are SpanUpdater.update results, which stay within the cleaned text (C10 in_range)",
+                        "is_valid_name is an uninterpreted predicate"],
+        "not_covered": ["that a reference's text contains a valid party/resolved name and that markup-derived references lie after their full citation "
+                        "(needs the two independently computed diffs to be mutually inverse) -- bounded stand-in only",
+                        "the easter-egg input (known finding)"],
     },
     "C20": {
         "contracts": ["clean"],
